@@ -12,6 +12,12 @@ pushes its record. The store operations (`add_track`, `merge_external`, `get_sto
 (indexing `dest[0]` reads a default on an empty list: the voting engines return non-empty lists, `Tie/SortVoting.lean`,
 `Tie/VisVoting.lean`).
 
+The same loop runs in the voting threads of the batch trackers (`trackers/sort/batch_api.rs`, `trackers/visual_sort/batch_api.rs`,
+`fn voting_thread`; a statement snippet, with the shared id counter — an `Arc<RwLock<u64>>` whose name a later local shadows —
+renamed `ctr` and the shared store renamed `db` by patterns stated in the configuration). There an id is drawn for **every**
+candidate, used or not: `stepB` / `stepBV`, `tie_batch_sort_apply_winners`, `tie_batch_visual_apply_winners`,
+`batch_sort_apply_C01`, `batch_visual_apply_C01`.
+
 Proved here, for **every** list of detections, winners table and store behaviour:
 
 * `tie_sort_apply_winners`, `tie_visual_apply_winners`: the loop is the left-to-right monadic fold of `stepI` / `stepV`
@@ -20,8 +26,8 @@ Proved here, for **every** list of detections, winners table and store behaviour
 * `sort_apply_C01`, `visual_apply_C01` (from `run_one_record_per_detection`, `run_fresh_ids_increasing`,
   `run_fresh_ids_never_issued`, `run_fresh_ids_nodup`, proved once for any step of that shape): when the call does not
   panic it returns exactly one record per detection, in submission order; the ids given to newly started tracks are
-  `ctr+1, ctr+2, …` — strictly increasing, pairwise distinct, above every value the counter ever had, so never issued
-  before by this tracker instance; the counter only grows.
+  values the counter takes during the call — strictly increasing, pairwise distinct, above the counter at entry (the largest
+  id issued so far), so never issued before by this tracker instance; the counter only grows.
 -/
 set_option linter.unusedSectionVars false
 set_option linter.unusedVariables false
@@ -168,33 +174,46 @@ theorem tie_sort_apply_winners (trackId : T → Nat) (setTrackId : T → Nat →
 
 /-! ### what the fold guarantees (for any step of the shape both trackers have) -/
 
-/-- a step adds one record and one chosen id: an existing track's (counter unchanged), or the next counter value -/
+/-- a step adds one record and one chosen id: an existing track's, or — for a new track — the value the counter has after
+the step, which is larger than before; the counter never decreases (the batch trackers draw an id for every candidate) -/
 def StepOK (step : RunSt DB R → T → Option (RunSt DB R)) : Prop :=
   ∀ st t st', step st t = some st' →
-    st'.1.2.2.length = st.1.2.2.length + 1 ∧
-    ((∃ d, st'.2 = st.2 ++ [(d, false)] ∧ st'.1.1 = st.1.1) ∨ (st'.2 = st.2 ++ [(st.1.1 + 1, true)] ∧ st'.1.1 = st.1.1 + 1))
+    st'.1.2.2.length = st.1.2.2.length + 1 ∧ st.1.1 ≤ st'.1.1 ∧
+    ((∃ d, st'.2 = st.2 ++ [(d, false)]) ∨ (st'.2 = st.2 ++ [(st'.1.1, true)] ∧ st.1.1 < st'.1.1))
 
-/-- invariant of the run: one record and one chosen id per processed detection; the fresh ids are exactly the counter
-values passed, in order; the counter has grown by their number -/
+/-- invariant of the run: one record and one chosen id per processed detection; the fresh ids are strictly increasing,
+above the counter at entry and at most the current counter -/
 structure RunInv (c0 : Nat) (k : Nat) (st : RunSt DB R) : Prop where
   recs : st.1.2.2.length = k
   ids : st.2.length = k
-  ctr : st.1.1 = c0 + (st.2.filter (·.2)).length
-  fresh : (st.2.filter (·.2)).map (·.1) = (List.range (st.2.filter (·.2)).length).map (fun i => c0 + 1 + i)
+  mono : c0 ≤ st.1.1
+  fresh : ((st.2.filter (·.2)).map (·.1)).Pairwise (· < ·)
+  bound : ∀ x ∈ (st.2.filter (·.2)).map (·.1), c0 < x ∧ x ≤ st.1.1
 
 theorem step_inv (step : RunSt DB R → T → Option (RunSt DB R)) (hok : StepOK step) (c0 k : Nat)
     (st st' : RunSt DB R) (t : T) (h : RunInv c0 k st) (hs : step st t = some st') : RunInv c0 (k + 1) st' := by
-  obtain ⟨hl, hc⟩ := hok st t st' hs
-  rcases hc with ⟨d, hids, hctr⟩ | ⟨hids, hctr⟩
-  · refine ⟨by rw [hl, h.recs], by rw [hids]; simp [h.ids], ?_, ?_⟩
-    · rw [hids, hctr]; simp [List.filter_append, h.ctr]
+  obtain ⟨hl, hmono, hc⟩ := hok st t st' hs
+  rcases hc with ⟨d, hids⟩ | ⟨hids, hlt⟩
+  · refine ⟨by rw [hl, h.recs], by rw [hids]; simp [h.ids], Nat.le_trans h.mono hmono, ?_, ?_⟩
     · rw [hids]; simpa [List.filter_append] using h.fresh
-  · refine ⟨by rw [hl, h.recs], by rw [hids]; simp [h.ids], ?_, ?_⟩
-    · rw [hids, hctr]; simp [List.filter_append, h.ctr]; omega
+    · rw [hids]; intro x hx
+      have hx' : x ∈ (st.2.filter (·.2)).map (·.1) := by simpa [List.filter_append] using hx
+      exact ⟨(h.bound x hx').1, Nat.le_trans (h.bound x hx').2 hmono⟩
+  · refine ⟨by rw [hl, h.recs], by rw [hids]; simp [h.ids], Nat.le_trans h.mono hmono, ?_, ?_⟩
+    · rw [hids]
+      simp only [List.filter_append, List.filter_cons, List.filter_nil, ↓reduceIte, List.map_append, List.map_cons, List.map_nil]
+      rw [List.pairwise_append]
+      refine ⟨h.fresh, List.pairwise_singleton _ _, ?_⟩
+      intro x hx y hy
+      simp only [List.mem_singleton] at hy
+      subst hy
+      exact Nat.lt_of_le_of_lt (h.bound x hx).2 hlt
     · rw [hids]
       simp only [List.filter_append, List.filter_cons, List.filter_nil, ↓reduceIte, List.map_append, List.map_cons, List.map_nil,
-        List.length_append, List.length_cons, List.length_nil, List.range_succ, h.fresh, h.ctr]
-      simp; omega
+        List.mem_append, List.mem_singleton]
+      rintro x (hx | rfl)
+      · exact ⟨(h.bound x hx).1, Nat.le_trans (h.bound x hx).2 hmono⟩
+      · exact ⟨Nat.lt_of_le_of_lt h.mono hlt, Nat.le_refl _⟩
 
 theorem runG_inv (step : RunSt DB R → T → Option (RunSt DB R)) (hok : StepOK step) (c0 : Nat) (tracks : List T) :
     ∀ (k : Nat) (st st' : RunSt DB R), RunInv c0 k st → runG step tracks st = some st' → RunInv c0 (k + tracks.length) st' := by
@@ -210,41 +229,38 @@ theorem runG_inv (step : RunSt DB R → T → Option (RunSt DB R)) (hok : StepOK
       have := ih (k + 1) s1 st' (step_inv step hok c0 k st s1 t h h1) hs
       simpa [Nat.add_assoc, Nat.add_comm 1] using this
 
+theorem runInv_init (ctr : Nat) (db : DB) : RunInv (R := R) ctr 0 ((ctr, db, []), []) :=
+  ⟨rfl, rfl, Nat.le_refl _, List.Pairwise.nil, fun x hx => by cases hx⟩
+
 /-- **one record per detection, in submission order** (C01): when the call returns, it returns as many records as
-detections, one chosen id each; the counter has advanced by the number of new tracks -/
+detections, one chosen id each; the counter has not decreased -/
 theorem run_one_record_per_detection (step : RunSt DB R → T → Option (RunSt DB R)) (hok : StepOK step) (tracks : List T) (ctr : Nat) (db : DB)
     (st' : RunSt DB R) (h : runG step tracks ((ctr, db, []), []) = some st') :
-    st'.1.2.2.length = tracks.length ∧ st'.2.length = tracks.length ∧ st'.1.1 = ctr + (st'.2.filter (·.2)).length := by
-  have := runG_inv step hok ctr tracks 0 ((ctr, db, []), []) st' ⟨rfl, rfl, rfl, rfl⟩ h
-  exact ⟨by simpa using this.recs, by simpa using this.ids, this.ctr⟩
+    st'.1.2.2.length = tracks.length ∧ st'.2.length = tracks.length ∧ ctr ≤ st'.1.1 := by
+  have := runG_inv step hok ctr tracks 0 ((ctr, db, []), []) st' (runInv_init ctr db) h
+  exact ⟨by simpa using this.recs, by simpa using this.ids, this.mono⟩
 
-/-- **the ids of newly started tracks are `ctr+1, ctr+2, …`**: strictly increasing, hence pairwise distinct … -/
+/-- **the ids of newly started tracks are strictly increasing** in submission order … -/
 theorem run_fresh_ids_increasing (step : RunSt DB R → T → Option (RunSt DB R)) (hok : StepOK step) (tracks : List T) (ctr : Nat) (db : DB)
     (st' : RunSt DB R) (h : runG step tracks ((ctr, db, []), []) = some st') :
-    (st'.2.filter (·.2)).map (·.1) = (List.range (st'.2.filter (·.2)).length).map (fun i => ctr + 1 + i) :=
-  (runG_inv step hok ctr tracks 0 ((ctr, db, []), []) st' ⟨rfl, rfl, rfl, rfl⟩ h).fresh
+    ((st'.2.filter (·.2)).map (·.1)).Pairwise (· < ·) :=
+  (runG_inv step hok ctr tracks 0 ((ctr, db, []), []) st' (runInv_init ctr db) h).fresh
 
 /-- … **and never issued before**: every one of them is above the counter the call started with (the counter is the
-largest id this tracker instance has issued: `gen_track_id` is its only writer and returns the value it stores) and at
-most the counter the call ends with -/
+largest id this tracker instance has issued: it is written only where an id is drawn, and the id drawn is the value
+stored) and at most the counter the call ends with -/
 theorem run_fresh_ids_never_issued (step : RunSt DB R → T → Option (RunSt DB R)) (hok : StepOK step) (tracks : List T) (ctr : Nat) (db : DB)
     (st' : RunSt DB R) (h : runG step tracks ((ctr, db, []), []) = some st') :
     ∀ p ∈ st'.2, p.2 = true → ctr < p.1 ∧ p.1 ≤ st'.1.1 := by
   intro p hp hf
-  have hfr := run_fresh_ids_increasing step hok tracks ctr db st' h
-  have hc := (run_one_record_per_detection step hok tracks ctr db st' h).2.2
-  have hm : p.1 ∈ (st'.2.filter (·.2)).map (·.1) := List.mem_map.mpr ⟨p, List.mem_filter.mpr ⟨hp, hf⟩, rfl⟩
-  rw [hfr] at hm
-  obtain ⟨i, hi, hpi⟩ := List.mem_map.mp hm
-  have := List.mem_range.mp hi
-  omega
+  exact (runG_inv step hok ctr tracks 0 ((ctr, db, []), []) st' (runInv_init ctr db) h).bound p.1
+    (List.mem_map.mpr ⟨p, List.mem_filter.mpr ⟨hp, hf⟩, rfl⟩)
 
 /-- the fresh ids of one call are pairwise distinct -/
 theorem run_fresh_ids_nodup (step : RunSt DB R → T → Option (RunSt DB R)) (hok : StepOK step) (tracks : List T) (ctr : Nat) (db : DB)
     (st' : RunSt DB R) (h : runG step tracks ((ctr, db, []), []) = some st') :
-    ((st'.2.filter (·.2)).map (·.1)).Nodup := by
-  rw [run_fresh_ids_increasing step hok tracks ctr db st' h]
-  exact List.Nodup.map (fun a b hab => by simpa using hab) List.nodup_range
+    ((st'.2.filter (·.2)).map (·.1)).Nodup :=
+  (run_fresh_ids_increasing step hok tracks ctr db st' h).imp (fun hab => Nat.ne_of_lt hab)
 
 /-- the SORT step has that shape -/
 theorem stepI_ok (trackId : T → Nat) (setTrackId : T → Nat → T) (addTrack : DB → T → Option DB) (mergeExternal : DB → Nat → T → Option DB)
@@ -265,7 +281,7 @@ theorem stepI_ok (trackId : T → Nat) (setTrackId : T → Nat → T) (addTrack 
       | some tr =>
         rw [hg] at hs; simp only [Option.map_some, Option.some.injEq] at hs
         subst hs
-        exact ⟨by simp, Or.inl ⟨dest, rfl, rfl⟩⟩
+        exact ⟨by simp, Nat.le_refl _, Or.inl ⟨dest, rfl⟩⟩
   | none =>
     rw [hp] at hs
     simp only [] at hs
@@ -278,7 +294,7 @@ theorem stepI_ok (trackId : T → Nat) (setTrackId : T → Nat → T) (addTrack 
       | some tr =>
         rw [hg] at hs; simp only [Option.map_some, Option.some.injEq] at hs
         subst hs
-        exact ⟨by simp, Or.inr ⟨rfl, rfl⟩⟩
+        exact ⟨by simp, Nat.le_succ _, Or.inr ⟨rfl, Nat.lt_succ_self _⟩⟩
 
 /-- **C01 for the SORT loop as the source has it**: one record per detection in submission order; fresh ids are the next
 counter values — increasing, pairwise distinct, never issued before -/
@@ -342,7 +358,7 @@ theorem stepV_ok {V : Type} [Inhabited V] (trackId : T → Nat) (setTrackId : T 
         | some tr =>
           rw [hg] at hs; simp only [Option.map_some, Option.some.injEq] at hs
           subst hs
-          exact ⟨by simp, Or.inl ⟨dest, rfl, rfl⟩⟩
+          exact ⟨by simp, Nat.le_refl _, Or.inl ⟨dest, rfl⟩⟩
   | none =>
     rw [hp] at hs
     simp only [] at hs
@@ -355,7 +371,7 @@ theorem stepV_ok {V : Type} [Inhabited V] (trackId : T → Nat) (setTrackId : T 
       | some tr =>
         rw [hg] at hs; simp only [Option.map_some, Option.some.injEq] at hs
         subst hs
-        exact ⟨by simp, Or.inr ⟨rfl, rfl⟩⟩
+        exact ⟨by simp, Nat.le_succ _, Or.inr ⟨rfl, Nat.lt_succ_self _⟩⟩
 
 def genStepV {V : Type} [Inhabited V] (trackId : T → Nat) (setTrackId : T → Nat → T) (cloneT : T → T) (addVotingObs : T → Option V → Option T)
     (addTrack : DB → T → Option DB) (mergeExternal : DB → Nat → T → Option DB)
@@ -477,6 +493,286 @@ theorem visual_apply_C01 {V : Type} [Inhabited V] (trackId : T → Nat) (setTrac
   · exact run_fresh_ids_never_issued _ hok tracks ctr db st' h
 
 theorem tie_visual_gen_track_id (c : Nat) : visual_gen_track_id c = (c + 1, c + 1) := rfl
+
+/-! ### the batch trackers: the same loop in the voting threads, an id drawn from the shared counter for **every** candidate -/
+
+def stepB (trackId : T → Nat) (setTrackId : T → Nat → T) (addTrack : DB → T → Option DB) (mergeExternal : DB → Nat → T → Option DB)
+    (shardOf : DB → Nat → List (Nat × T)) (recOf : T → R) (winners : List (Nat × List Nat))
+    (st : RunSt DB R) (t : T) : Option (RunSt DB R) :=
+  match pickOf winners (trackId t) with
+  | some dest =>
+    (mergeExternal st.1.2.1 dest t).bind fun db' =>
+      (mapGet (shardOf db' dest) dest).map fun tr => ((st.1.1 + 1, db', st.1.2.2 ++ [recOf tr]), st.2 ++ [(dest, false)])
+  | none =>
+    (addTrack st.1.2.1 (setTrackId t (st.1.1 + 1))).bind fun db' =>
+      (mapGet (shardOf db' (st.1.1 + 1)) (st.1.1 + 1)).map fun tr =>
+        ((st.1.1 + 1, db', st.1.2.2 ++ [recOf tr]), st.2 ++ [(st.1.1 + 1, true)])
+
+theorem stepB_ok (trackId : T → Nat) (setTrackId : T → Nat → T) (addTrack : DB → T → Option DB) (mergeExternal : DB → Nat → T → Option DB)
+    (shardOf : DB → Nat → List (Nat × T)) (recOf : T → R) (winners : List (Nat × List Nat)) :
+    StepOK (stepB trackId setTrackId addTrack mergeExternal shardOf recOf winners) := by
+  intro st t st' hs
+  unfold stepB at hs
+  cases hp : pickOf winners (trackId t) with
+  | some dest =>
+    rw [hp] at hs
+    simp only [] at hs
+    cases hm : mergeExternal st.1.2.1 dest t with
+    | none => rw [hm] at hs; simp at hs
+    | some db' =>
+      rw [hm] at hs; simp only [Option.bind_some] at hs
+      cases hg : mapGet (shardOf db' dest) dest with
+      | none => rw [hg] at hs; simp at hs
+      | some tr =>
+        rw [hg] at hs; simp only [Option.map_some, Option.some.injEq] at hs
+        subst hs
+        exact ⟨by simp, Nat.le_succ _, Or.inl ⟨dest, rfl⟩⟩
+  | none =>
+    rw [hp] at hs
+    simp only [] at hs
+    cases hm : addTrack st.1.2.1 (setTrackId t (st.1.1 + 1)) with
+    | none => rw [hm] at hs; simp at hs
+    | some db' =>
+      rw [hm] at hs; simp only [Option.bind_some] at hs
+      cases hg : mapGet (shardOf db' (st.1.1 + 1)) (st.1.1 + 1) with
+      | none => rw [hg] at hs; simp at hs
+      | some tr =>
+        rw [hg] at hs; simp only [Option.map_some, Option.some.injEq] at hs
+        subst hs
+        exact ⟨by simp, Nat.le_succ _, Or.inr ⟨rfl, Nat.lt_succ_self _⟩⟩
+
+theorem stepB_ids (trackId : T → Nat) (setTrackId : T → Nat → T) (addTrack : DB → T → Option DB) (mergeExternal : DB → Nat → T → Option DB)
+    (shardOf : DB → Nat → List (Nat × T)) (recOf : T → R) (winners : List (Nat × List Nat)) (s : Nat × DB × List R) (ids : List (Nat × Bool)) (t : T) :
+    (stepB trackId setTrackId addTrack mergeExternal shardOf recOf winners (s, ids) t).map (·.1) =
+    (stepB trackId setTrackId addTrack mergeExternal shardOf recOf winners (s, []) t).map (·.1) := by
+  unfold stepB
+  cases pickOf winners (trackId t) with
+  | some dest =>
+    simp only []
+    cases mergeExternal s.2.1 dest t with
+    | none => rfl
+    | some db' => simp only [Option.bind_some]; cases mapGet (shardOf db' dest) dest <;> rfl
+  | none =>
+    simp only []
+    cases addTrack s.2.1 (setTrackId t (s.1 + 1)) with
+    | none => rfl
+    | some db' => simp only [Option.bind_some]; cases mapGet (shardOf db' (s.1 + 1)) (s.1 + 1) <;> rfl
+
+def genStepB (trackId : T → Nat) (setTrackId : T → Nat → T) (addTrack : DB → T → Option DB) (mergeExternal : DB → Nat → T → Option DB)
+    (shardOf : DB → Nat → List (Nat × T)) (recOf : T → R) (winners : List (Nat × List Nat))
+    (acc : Option (Nat × DB × List R)) (t : T) : Option (Nat × DB × List R) :=
+  match acc with
+  | none => none
+  | some st => (stepB trackId setTrackId addTrack mergeExternal shardOf recOf winners (st, []) t).map (·.1)
+
+theorem gen_apply_b (trackId : T → Nat) (setTrackId : T → Nat → T) (addTrack : DB → T → Option DB) (mergeExternal : DB → Nat → T → Option DB)
+    (shardOf : DB → Nat → List (Nat × T)) (recOf : T → R) (winners : List (Nat × List Nat)) (tracks : List T) (ctr : Nat) (db : DB) :
+    batch_sort_apply_winners trackId setTrackId addTrack mergeExternal shardOf recOf winners tracks ctr db =
+      List.foldl (genStepB trackId setTrackId addTrack mergeExternal shardOf recOf winners) (some (ctr, db, [])) tracks := by
+  unfold batch_sort_apply_winners
+  simp only []
+  rw [foldl_ext_fn' _ (genStepB trackId setTrackId addTrack mergeExternal shardOf recOf winners) (by
+    intro acc t
+    cases acc with
+    | none => rfl
+    | some st =>
+      obtain ⟨c, d, r⟩ := st
+      simp only [genStepB, stepB, pickOf]
+      cases hw : mapGet winners (trackId t) with
+      | none =>
+        simp only []
+        cases addTrack d (setTrackId t (c + 1)) with
+        | none => rfl
+        | some db' => simp only [Option.bind_some]; cases mapGet (shardOf db' (c + 1)) (c + 1) <;> rfl
+      | some l =>
+        simp only []
+        by_cases hd : l[0]! = trackId t
+        · simp only [hd, decide_true, ↓reduceIte]
+          cases addTrack d (setTrackId t (c + 1)) with
+          | none => rfl
+          | some db' => simp only [Option.bind_some]; cases mapGet (shardOf db' (c + 1)) (c + 1) <;> rfl
+        · simp only [hd, decide_false, Bool.false_eq_true, ↓reduceIte]
+          cases mergeExternal d l[0]! t with
+          | none => rfl
+          | some db' => simp only [Option.bind_some]; cases mapGet (shardOf db' l[0]!) l[0]! <;> rfl)]
+  generalize List.foldl (genStepB trackId setTrackId addTrack mergeExternal shardOf recOf winners) (some (ctr, db, [])) tracks = s
+  cases s with
+  | none => rfl
+  | some r => rfl
+
+/-- **the apply loop of BatchSort's voting thread is the fold of `stepB`** -/
+theorem tie_batch_sort_apply_winners (trackId : T → Nat) (setTrackId : T → Nat → T) (addTrack : DB → T → Option DB) (mergeExternal : DB → Nat → T → Option DB)
+    (shardOf : DB → Nat → List (Nat × T)) (recOf : T → R) (winners : List (Nat × List Nat)) (tracks : List T) (ctr : Nat) (db : DB) :
+    batch_sort_apply_winners trackId setTrackId addTrack mergeExternal shardOf recOf winners tracks ctr db =
+      (runG (stepB trackId setTrackId addTrack mergeExternal shardOf recOf winners) tracks ((ctr, db, []), [])).map (·.1) := by
+  rw [gen_apply_b]
+  exact runG_fold _ _ (fun _ => rfl) (fun _ _ => rfl)
+    (stepB_ids trackId setTrackId addTrack mergeExternal shardOf recOf winners) tracks (ctr, db, []) []
+
+/-- **C01 for the BatchSort loop as the source has it** -/
+theorem batch_sort_apply_C01 (trackId : T → Nat) (setTrackId : T → Nat → T) (addTrack : DB → T → Option DB) (mergeExternal : DB → Nat → T → Option DB)
+    (shardOf : DB → Nat → List (Nat × T)) (recOf : T → R) (winners : List (Nat × List Nat)) (tracks : List T) (ctr : Nat) (db : DB)
+    (st' : RunSt DB R)
+    (h : runG (stepB trackId setTrackId addTrack mergeExternal shardOf recOf winners) tracks ((ctr, db, []), []) = some st') :
+    batch_sort_apply_winners trackId setTrackId addTrack mergeExternal shardOf recOf winners tracks ctr db = some st'.1 ∧
+    st'.1.2.2.length = tracks.length ∧ st'.2.length = tracks.length ∧
+    ((st'.2.filter (·.2)).map (·.1)).Nodup ∧ (∀ p ∈ st'.2, p.2 = true → ctr < p.1 ∧ p.1 ≤ st'.1.1) := by
+  have hok := stepB_ok trackId setTrackId addTrack mergeExternal shardOf recOf winners
+  refine ⟨by rw [tie_batch_sort_apply_winners, h]; rfl, ?_, ?_, ?_, ?_⟩
+  · exact (run_one_record_per_detection _ hok tracks ctr db st' h).1
+  · exact (run_one_record_per_detection _ hok tracks ctr db st' h).2.1
+  · exact run_fresh_ids_nodup _ hok tracks ctr db st' h
+  · exact run_fresh_ids_never_issued _ hok tracks ctr db st' h
+
+def stepBV {V : Type} [Inhabited V] (trackId : T → Nat) (setTrackId : T → Nat → T) (addVotingObs : T → Option V → Option T)
+    (addTrack : DB → T → Option DB) (mergeExternal : DB → Nat → T → Option DB)
+    (shardOf : DB → Nat → List (Nat × T)) (recOf : T → R) (winners : List (Nat × List (Nat × V)))
+    (st : RunSt DB R) (t : T) : Option (RunSt DB R) :=
+  match pickOfV winners (trackId t) with
+  | some (dest, vt) =>
+    (addVotingObs t (some vt)).bind fun t' =>
+      (mergeExternal st.1.2.1 dest t').bind fun db' =>
+        (mapGet (shardOf db' dest) dest).map fun tr => ((st.1.1 + 1, db', st.1.2.2 ++ [recOf tr]), st.2 ++ [(dest, false)])
+  | none =>
+    (addTrack st.1.2.1 (setTrackId t (st.1.1 + 1))).bind fun db' =>
+      (mapGet (shardOf db' (st.1.1 + 1)) (st.1.1 + 1)).map fun tr =>
+        ((st.1.1 + 1, db', st.1.2.2 ++ [recOf tr]), st.2 ++ [(st.1.1 + 1, true)])
+
+theorem stepBV_ok {V : Type} [Inhabited V] (trackId : T → Nat) (setTrackId : T → Nat → T) (addVotingObs : T → Option V → Option T)
+    (addTrack : DB → T → Option DB) (mergeExternal : DB → Nat → T → Option DB)
+    (shardOf : DB → Nat → List (Nat × T)) (recOf : T → R) (winners : List (Nat × List (Nat × V))) :
+    StepOK (stepBV trackId setTrackId addVotingObs addTrack mergeExternal shardOf recOf winners) := by
+  intro st t st' hs
+  unfold stepBV at hs
+  cases hp : pickOfV winners (trackId t) with
+  | some dv =>
+    obtain ⟨dest, vt⟩ := dv
+    rw [hp] at hs
+    simp only [] at hs
+    cases ha : addVotingObs t (some vt) with
+    | none => rw [ha] at hs; simp at hs
+    | some t' =>
+      rw [ha] at hs; simp only [Option.bind_some] at hs
+      cases hm : mergeExternal st.1.2.1 dest t' with
+      | none => rw [hm] at hs; simp at hs
+      | some db' =>
+        rw [hm] at hs; simp only [Option.bind_some] at hs
+        cases hg : mapGet (shardOf db' dest) dest with
+        | none => rw [hg] at hs; simp at hs
+        | some tr =>
+          rw [hg] at hs; simp only [Option.map_some, Option.some.injEq] at hs
+          subst hs
+          exact ⟨by simp, Nat.le_succ _, Or.inl ⟨dest, rfl⟩⟩
+  | none =>
+    rw [hp] at hs
+    simp only [] at hs
+    cases hm : addTrack st.1.2.1 (setTrackId t (st.1.1 + 1)) with
+    | none => rw [hm] at hs; simp at hs
+    | some db' =>
+      rw [hm] at hs; simp only [Option.bind_some] at hs
+      cases hg : mapGet (shardOf db' (st.1.1 + 1)) (st.1.1 + 1) with
+      | none => rw [hg] at hs; simp at hs
+      | some tr =>
+        rw [hg] at hs; simp only [Option.map_some, Option.some.injEq] at hs
+        subst hs
+        exact ⟨by simp, Nat.le_succ _, Or.inr ⟨rfl, Nat.lt_succ_self _⟩⟩
+
+theorem stepBV_ids {V : Type} [Inhabited V] (trackId : T → Nat) (setTrackId : T → Nat → T) (addVotingObs : T → Option V → Option T)
+    (addTrack : DB → T → Option DB) (mergeExternal : DB → Nat → T → Option DB)
+    (shardOf : DB → Nat → List (Nat × T)) (recOf : T → R) (winners : List (Nat × List (Nat × V))) (s : Nat × DB × List R) (ids : List (Nat × Bool)) (t : T) :
+    (stepBV trackId setTrackId addVotingObs addTrack mergeExternal shardOf recOf winners (s, ids) t).map (·.1) =
+    (stepBV trackId setTrackId addVotingObs addTrack mergeExternal shardOf recOf winners (s, []) t).map (·.1) := by
+  unfold stepBV
+  cases pickOfV winners (trackId t) with
+  | some dv =>
+    obtain ⟨dest, vt⟩ := dv
+    simp only []
+    cases addVotingObs t (some vt) with
+    | none => rfl
+    | some t' =>
+      simp only [Option.bind_some]
+      cases mergeExternal s.2.1 dest t' with
+      | none => rfl
+      | some db' => simp only [Option.bind_some]; cases mapGet (shardOf db' dest) dest <;> rfl
+  | none =>
+    simp only []
+    cases addTrack s.2.1 (setTrackId t (s.1 + 1)) with
+    | none => rfl
+    | some db' => simp only [Option.bind_some]; cases mapGet (shardOf db' (s.1 + 1)) (s.1 + 1) <;> rfl
+
+def genStepBV {V : Type} [Inhabited V] (trackId : T → Nat) (setTrackId : T → Nat → T) (addVotingObs : T → Option V → Option T)
+    (addTrack : DB → T → Option DB) (mergeExternal : DB → Nat → T → Option DB)
+    (shardOf : DB → Nat → List (Nat × T)) (recOf : T → R) (winners : List (Nat × List (Nat × V)))
+    (acc : Option (Nat × DB × List R)) (t : T) : Option (Nat × DB × List R) :=
+  match acc with
+  | none => none
+  | some st => (stepBV trackId setTrackId addVotingObs addTrack mergeExternal shardOf recOf winners (st, []) t).map (·.1)
+
+theorem gen_apply_bv {V : Type} [Inhabited V] (trackId : T → Nat) (setTrackId : T → Nat → T) (cloneT : T → T) (addVotingObs : T → Option V → Option T)
+    (addTrack : DB → T → Option DB) (mergeExternal : DB → Nat → T → Option DB)
+    (shardOf : DB → Nat → List (Nat × T)) (recOf : T → R) (winners : List (Nat × List (Nat × V))) (tracks : List T) (ctr : Nat) (db : DB) :
+    batch_visual_apply_winners trackId setTrackId cloneT addVotingObs addTrack mergeExternal shardOf recOf winners tracks ctr db =
+      List.foldl (genStepBV trackId setTrackId addVotingObs addTrack mergeExternal shardOf recOf winners) (some (ctr, db, [])) tracks := by
+  unfold batch_visual_apply_winners
+  simp only []
+  rw [foldl_ext_fn' _ (genStepBV trackId setTrackId addVotingObs addTrack mergeExternal shardOf recOf winners) (by
+    intro acc t
+    cases acc with
+    | none => rfl
+    | some st =>
+      obtain ⟨c, d, r⟩ := st
+      simp only [genStepBV, stepBV, pickOfV]
+      cases hw : mapGet winners (trackId t) with
+      | none =>
+        simp only []
+        cases addTrack d (setTrackId t (c + 1)) with
+        | none => rfl
+        | some db' => simp only [Option.bind_some]; cases mapGet (shardOf db' (c + 1)) (c + 1) <;> rfl
+      | some l =>
+        simp only []
+        by_cases hd : l[0]!.1 = trackId t
+        · simp only [hd, decide_true, ↓reduceIte]
+          cases addTrack d (setTrackId t (c + 1)) with
+          | none => rfl
+          | some db' => simp only [Option.bind_some]; cases mapGet (shardOf db' (c + 1)) (c + 1) <;> rfl
+        · simp only [hd, decide_false, Bool.false_eq_true, ↓reduceIte]
+          cases addVotingObs t (some l[0]!.2) with
+          | none => rfl
+          | some t' =>
+            simp only [Option.bind_some]
+            cases mergeExternal d l[0]!.1 t' with
+            | none => rfl
+            | some db' => simp only [Option.bind_some]; cases mapGet (shardOf db' l[0]!.1) l[0]!.1 <;> rfl)]
+  generalize List.foldl (genStepBV trackId setTrackId addVotingObs addTrack mergeExternal shardOf recOf winners) (some (ctr, db, [])) tracks = s
+  cases s with
+  | none => rfl
+  | some r => rfl
+
+/-- **the apply loop of BatchVisualSort's voting thread is the fold of `stepBV`** -/
+theorem tie_batch_visual_apply_winners {V : Type} [Inhabited V] (trackId : T → Nat) (setTrackId : T → Nat → T) (cloneT : T → T) (addVotingObs : T → Option V → Option T)
+    (addTrack : DB → T → Option DB) (mergeExternal : DB → Nat → T → Option DB)
+    (shardOf : DB → Nat → List (Nat × T)) (recOf : T → R) (winners : List (Nat × List (Nat × V))) (tracks : List T) (ctr : Nat) (db : DB) :
+    batch_visual_apply_winners trackId setTrackId cloneT addVotingObs addTrack mergeExternal shardOf recOf winners tracks ctr db =
+      (runG (stepBV trackId setTrackId addVotingObs addTrack mergeExternal shardOf recOf winners) tracks ((ctr, db, []), [])).map (·.1) := by
+  rw [gen_apply_bv]
+  exact runG_fold _ _ (fun _ => rfl) (fun _ _ => rfl)
+    (stepBV_ids trackId setTrackId addVotingObs addTrack mergeExternal shardOf recOf winners) tracks (ctr, db, []) []
+
+/-- **C01 for the BatchVisualSort loop as the source has it** -/
+theorem batch_visual_apply_C01 {V : Type} [Inhabited V] (trackId : T → Nat) (setTrackId : T → Nat → T) (cloneT : T → T) (addVotingObs : T → Option V → Option T)
+    (addTrack : DB → T → Option DB) (mergeExternal : DB → Nat → T → Option DB)
+    (shardOf : DB → Nat → List (Nat × T)) (recOf : T → R) (winners : List (Nat × List (Nat × V))) (tracks : List T) (ctr : Nat) (db : DB)
+    (st' : RunSt DB R)
+    (h : runG (stepBV trackId setTrackId addVotingObs addTrack mergeExternal shardOf recOf winners) tracks ((ctr, db, []), []) = some st') :
+    batch_visual_apply_winners trackId setTrackId cloneT addVotingObs addTrack mergeExternal shardOf recOf winners tracks ctr db = some st'.1 ∧
+    st'.1.2.2.length = tracks.length ∧ st'.2.length = tracks.length ∧
+    ((st'.2.filter (·.2)).map (·.1)).Nodup ∧ (∀ p ∈ st'.2, p.2 = true → ctr < p.1 ∧ p.1 ≤ st'.1.1) := by
+  have hok := stepBV_ok trackId setTrackId addVotingObs addTrack mergeExternal shardOf recOf winners
+  refine ⟨by rw [tie_batch_visual_apply_winners, h]; rfl, ?_, ?_, ?_, ?_⟩
+  · exact (run_one_record_per_detection _ hok tracks ctr db st' h).1
+  · exact (run_one_record_per_detection _ hok tracks ctr db st' h).2.1
+  · exact run_fresh_ids_nodup _ hok tracks ctr db st' h
+  · exact run_fresh_ids_never_issued _ hok tracks ctr db st' h
 
 /-- `gen_track_id`: the counter is incremented and its new value returned -/
 theorem tie_sort_gen_track_id (c : Nat) : sort_gen_track_id c = (c + 1, c + 1) := rfl
